@@ -85,6 +85,9 @@ def workflows():
          'stage1.Agg': m(1, ['stage0.S0', 'stage0.S1'], aggregate=True), 'stage1.T': m(1, ['stage1.Agg'])})
     add('late-sibling', [comp('Y'), comp('A'), comp('X', ['A:ref'])],
         {'stage0.Y': m(), 'stage0.A': m(), 'stage0.X': m(producers=['stage0.A'])})
+    add('xreplica-agg-slow', [comp('S', wa={'replicate': 2}), comp('X'), comp('Agg', ['stage0.S:ref'], stage=1, wa={'aggregate': True})],
+        {'stage0.S0': m(replica_of='S'), 'stage0.S1': m(replica_of='S'), 'stage0.X': m(),
+         'stage1.Agg': m(1, ['stage0.S0', 'stage0.S1'], aggregate=True)})
     add('agg-plain', [comp('P'), comp('Agg', ['P:ref'], wa={'aggregate': True}), comp('T', ['Agg:ref'])],
         {'stage0.P': m(), 'stage0.Agg': m(producers=['stage0.P'], aggregate=True), 'stage0.T': m(producers=['stage0.Agg'])})
     return W
@@ -235,6 +238,11 @@ def make_scenarios(tier):
     out.append({'wf': 'fanin', 'labels': {'stage0.P1': 'KS'}, 'dur': {'stage0.P2': 40.0}})
     # a restartable exit of X (staged in a later batch than Y) lands while the unrecoverable exit of Y is being handled
     out.append({'wf': 'fanin', 'labels': {'stage0.P1': 'KF', 'stage0.P2': 'RS'}, 'dur': {'stage0.P2': 25.0003}})
+    # a producer fails while siblings of its stage are still running: the stage drains over several scheduler passes
+    for sl in ('KF', 'KS'):
+        out.append({'wf': 'xreplica-agg-slow', 'labels': {'stage0.S0': sl}, 'dur': {'stage0.S1': 40.0, 'stage0.X': 40.0}})
+        out.append({'wf': 'xreplica-agg-slow', 'labels': {'stage0.S0': sl}, 'dur': {'stage0.S1': 40.0, 'stage0.X': 60.0}})
+        out.append({'wf': 'xreplica-agg-slow', 'labels': {'stage0.S0': sl}, 'dur': {'stage0.X': 40.0}})
     out.append({'wf': 'fanin', 'labels': {'stage0.P1': 'KF', 'stage0.P2': 'KS'}, 'dur': {'stage0.P2': 25.0003}})
     for d in (23.0, 24.0, 25.0):
         out.append({'wf': 'late-sibling', 'labels': {'stage0.Y': 'KF', 'stage0.X': 'RS'}, 'dur': {'stage0.X': d}})
@@ -505,7 +513,8 @@ def run(ctx, which):
     items = []
     nrace = 0
     races = [(w, l, {}) for w, l in races] + [('late-sibling', {'stage0.Y': 'KF', 'stage0.X': 'RS'}, {'stage0.X': 24.0}),
-                                             ('fanin', {'stage0.P1': 'KF', 'stage0.P2': 'RS'}, {'stage0.P2': 25.0003})]
+                                             ('fanin', {'stage0.P1': 'KF', 'stage0.P2': 'RS'}, {'stage0.P2': 25.0003}),
+                                             ('xreplica-agg-slow', {'stage0.S0': 'KF'}, {'stage0.S1': 40.0, 'stage0.X': 40.0})]
     for wf, labels, dur in (races if not only else []):
         sc = [x for x in scns if x['wf'] == wf and x['labels'] == labels and x['dur'] == dur]
         if not sc:
